@@ -209,6 +209,10 @@ def run(chk, tier, scale=1.0):
     # valid files that spell the keys of the prior configurations in another letter case (accepted; the aftermath load follows)
     specials += [b'ALPHA {\n S "respelled";\n L ("q");\n};\n', b'Alpha { O { X "2"; }; s "t"; };\nBETA { T "9m"; I "h" "1"; };\n',
                  b'alpha { S "a"; s "b"; };\n', b'LOOSE "x";\nalpha { o { OO { Y ("z"); }; }; };\n']
+    # valid files in which a typed setting that the priors register carries a text of the wrong type, next to other edits: the load
+    # succeeds (the old value stays in force), and if it ever reports an error instead nothing may have changed
+    specials += [b'alpha { o { x "12q"; }; s "changed"; l ("z"); };\n', b'beta { t "5x"; i "h" "1"; };\nalpha { s "w"; };\n',
+                 b'alpha { b "maybe"; l ("z", "y"); s "v"; };\n', b'alpha { o { x "pizza"; }; };\nbeta { t "1:2:3:4"; };\nloose "q";\n']
     # escape sequences cut short or malformed, at every distance from the closing quote
     for esc in [b"\\x", b"\\x4", b"\\x4z", b"\\xg", b"\\x41", b"\\xZ9", b"\\", b"\\q", b"\\x4\\x4", b"\\x\\x", b"\\xff\\x", b"\\x0", b"\\x00", b"\\n\\x1"]:
         for tmpl in (b'a "%s"\n', b'a "%s', b'a "xy%s"\n', b'a "%sxy"\n', b'a ("%s", "b")\n', b'"%s" v\n', b'o { k "%s" }\n', b'a "%s" "%s"\n', b'a b, "%s"\n',
